@@ -187,7 +187,62 @@ def h_precedence(ctx, use_defaults=True, use_dna=True, use_explicit=True):
     ctx.event('precedence-' + src)
 
 
-JOBFN = {'h_twins': h_twins, 'h_float': h_float, 'h_int': h_int, 'h_charset': h_charset, 'h_precedence': h_precedence}
+def h_partial(ctx, use_dna=True, given='x'):
+    """two declared hyperparameters, only one given explicitly: the explicit value is the one the strategy sees for that name
+    (explicit > dna() > defaults); a name that was not given may be absent, or carry its dna() value or its default - never
+    anything else"""
+    tint, tfloat = _types()
+    Strategy = S.base_strategy()
+    los, his, dfs = {}, {}, {}
+    for n in ('x', 'y'):
+        dfs[n] = ctx.real('default_' + n, -100, 100)
+        los[n] = ctx.real('min_' + n, -100, 100)
+        his[n] = ctx.real('max_' + n, -100, 100)
+        ctx.constrain(And(los[n] < his[n], los[n] <= dfs[n], dfs[n] <= his[n]))
+    ev = ctx.real('explicit', -100, 100)
+    dna_str = 'PC'
+    seen = []
+
+    class H(Strategy):
+        def hyperparameters(self):
+            return [{'name': n, 'type': tfloat, 'min': los[n], 'max': his[n], 'default': dfs[n]} for n in ('x', 'y')]
+
+        def dna(self):
+            return dna_str if use_dna else ''
+
+        def should_long(self):
+            return False
+
+        def go_long(self):
+            pass
+
+        def should_cancel_entry(self):
+            return True
+
+        def before(self):
+            seen.append(dict(self.hp) if self.hp is not None else None)
+
+    rows = [S.flat_row(S.T0 + i * S.MIN, 100.0) for i in range(3)]
+    S.run_session(S.make_candles(rows), H, S.config_dict('futures', fee=0.0), hyperparameters={given: ev})
+    ctx.prove(len(seen) == 3, 'C19:strategy-executed')
+    other = 'y' if given == 'x' else 'x'
+    gene = dna_str[('x', 'y').index(other)]
+    dna_val = ((builtins.ord(gene) - 40) * (his[other] - los[other])) / 79 + los[other]
+    for hp in seen:
+        ok_keys = hp is not None and given in hp and set(hp.keys()) <= {'x', 'y'}
+        ctx.prove(ok_keys, 'C19:strategy-sees-injected-hyperparameters', {'source': 'explicit-partial', 'given': given})
+        if not ok_keys:
+            continue
+        ctx.prove(ctx.equal(hp[given], ev), 'C19:explicit-value-wins-over-dna-and-default', {'given': given, 'dna': use_dna})
+        if other in hp:
+            allowed = ctx.equal(hp[other], dfs[other])
+            if use_dna:
+                allowed = Or(allowed, ctx.equal(hp[other], dna_val))
+            ctx.prove(allowed, 'C19:name-not-given-carries-dna-or-default', {'given': given, 'dna': use_dna})
+    ctx.event('precedence-explicit-partial')
+
+
+JOBFN = {'h_partial': h_partial, 'h_twins': h_twins, 'h_float': h_float, 'h_int': h_int, 'h_charset': h_charset, 'h_precedence': h_precedence}
 
 
 def _jobs(tier):
@@ -202,6 +257,9 @@ def _jobs(tier):
                 if g and not d:
                     continue  # dna() without declared hyperparameters decodes nothing
                 jobs.append(Job('prec_%d%d%d' % (d, g, e), h_precedence, {'use_defaults': d, 'use_dna': g, 'use_explicit': e}))
+    for g in (True, False):
+        for n in ('x', 'y'):
+            jobs.append(Job('partial_%d%s' % (g, n), h_partial, {'use_dna': g, 'given': n}))
     for j in jobs:
         j.opts.update({'nlsat_fallback': True, 'prove_timeout_ms': 30000})
     return jobs
@@ -230,7 +288,7 @@ def setup(tier, seed):
         'outside': ['int parameters with fractional bounds', 'binary64 rounding of (79*r)/79 + min (may exceed max by an ulp; reals here)'],
         'stubs': list(jstubs.INSTALLED),
         'assumptions': ['floats as reals', 'declared types are given through the module\'s own int/float names (selects the same branch)'],
-        'must_reach': ['float-decoded', 'int-decoded', 'charset-checked', 'precedence-explicit', 'precedence-dna', 'precedence-default', 'precedence-none'],
+        'must_reach': ['float-decoded', 'int-decoded', 'charset-checked', 'precedence-explicit', 'precedence-dna', 'precedence-default', 'precedence-none', 'precedence-explicit-partial'],
     }
 
 
@@ -239,7 +297,7 @@ def signature(v):
 
 
 def make_witness(v):
-    fn = {'float': 'h_float', 'int': 'h_int', 'charset': 'h_charset', 'prec': 'h_precedence', 'twins': 'h_twins'}[v['job'].split('_')[0]]
+    fn = {'float': 'h_float', 'int': 'h_int', 'charset': 'h_charset', 'prec': 'h_precedence', 'twins': 'h_twins', 'partial': 'h_partial'}[v['job'].split('_')[0]]
     return {'fn': fn, 'kwargs': v['bounds'], 'label': v['label'], 'model': v['model'], 'info': v.get('info')}
 
 
